@@ -41,6 +41,7 @@ type caseRec struct {
 	Lanes     int            `json:"concurrent_deliverers,omitempty"`
 	Twice     map[int]bool   `json:"simultaneous_duplicates,omitempty"`
 	Faults    map[int]string `json:"kv_faults_at_position,omitempty"`
+	ForkAt    int            `json:"restarted_twin_forked_before_position,omitempty"`
 	Diffs     []string       `json:"diffs,omitempty"`
 }
 
@@ -78,6 +79,13 @@ type job struct {
 	light bool
 	// faults[p] (lanes <= 1): the receive of position p meets that KV fault (round4.go)
 	faults map[int]string
+	// forkAt > 0 (lanes <= 1, no faults): before position forkAt is delivered a TWIN index(+corpus) is
+	// opened over a copy of the rows persisted so far ("the server is restarted at this moment");
+	// the live index is NOT restarted.  From then on both receive every arrival, and at every probe
+	// point the twin must answer like the live one (round6.go).  forkDel is the delete claim the
+	// planner expects to be parked on its absent target at that moment (zero: none expected).
+	forkAt  int
+	forkDel blob.Ref
 }
 
 // kvHandle is a sorted.KeyValue that can be closed and re-opened (file-backed kinds).
@@ -178,7 +186,10 @@ func (j *job) modeNotes(r *ev.Run) {
 	if len(j.faults) > 0 {
 		r.Note("history_modes", "kv-fault-during-a-receive")
 	}
-	if j.restartAt == 0 && len(j.dups) == 0 && j.lanes <= 1 && len(j.faults) == 0 {
+	if j.forkAt > 0 {
+		r.Note("history_modes", "restarted-twin")
+	}
+	if j.restartAt == 0 && len(j.dups) == 0 && j.lanes <= 1 && len(j.faults) == 0 && j.forkAt == 0 {
 		r.Note("history_modes", "plain")
 	}
 }
@@ -223,7 +234,7 @@ func runJob(r *ev.Run, j job, root string, sampleMu *sync.Mutex, sampled *int) {
 	}
 	rec := func(prefix int, diffs []string) caseRec {
 		c := caseRec{CaseID: j.wid, Family: j.family, World: j.w.Describe(), Order: j.order, Prefix: prefix, Corpus: j.corpus, KV: j.kv, Prefill: j.prefill,
-			RestartAt: j.restartAt, Dups: j.dups, Lanes: j.lanes, Twice: j.twice, Faults: j.faults, Diffs: diffs}
+			RestartAt: j.restartAt, Dups: j.dups, Lanes: j.lanes, Twice: j.twice, Faults: j.faults, ForkAt: j.forkAt, Diffs: diffs}
 		for i, bb := range j.w.Blobs {
 			c.Blobs = append(c.Blobs, fmt.Sprintf("%d:%s:%s", i, j.w.Kind[bb.Ref], bb.Ref))
 		}
@@ -292,8 +303,20 @@ func runJob(r *ev.Run, j job, root string, sampleMu *sync.Mutex, sampled *int) {
 		}
 		return true
 	}
+	var twin *hw.Idx
 	deliverPos := func(x *hw.Idx, p int) error {
 		b := j.w.Blobs[j.order[p]]
+		if twin != nil {
+			// the restarted twin receives exactly what the live index receives
+			if err := twin.Deliver(b); err != nil {
+				return fmt.Errorf("deliver #%d %v (%s) to the twin restarted before position %d: %w", p, b.Ref, j.w.Kind[b.Ref], j.forkAt, err)
+			}
+			for _, q := range j.dups[p] {
+				if err := twin.Deliver(j.w.Blobs[j.order[q]]); err != nil {
+					return fmt.Errorf("re-deliver #%d (after #%d) to the twin restarted before position %d: %w", q, p, j.forkAt, err)
+				}
+			}
+		}
 		if kind := j.faults[p]; kind != "" && fc != nil {
 			faulted = true
 			acked, err := deliverUnderFault(r, &j, x, h, fc, p, kind, func() bool { return betweenFailureAndRetry(x, p) })
@@ -345,6 +368,14 @@ func runJob(r *ev.Run, j job, root string, sampleMu *sync.Mutex, sampled *int) {
 			if n1, _, _ := live.Index.VerifPending(); n1 > 0 {
 				r.Count("mid_history_reopens_with_pending_dependencies", 1)
 			}
+		}
+		// ---- fork the restarted twin
+		if j.forkAt > 0 && twin == nil && batch[0] == j.forkAt && j.lanes <= 1 && fc == nil {
+			tw, ok := forkTwin(r, &j, live, h, ms, mode, rec)
+			if !ok {
+				return
+			}
+			twin = tw
 		}
 		// ---- deliver the batch
 		var derr error
@@ -452,7 +483,7 @@ func runJob(r *ev.Run, j job, root string, sampleMu *sync.Mutex, sampled *int) {
 		b2 := hw.Probe(fresh.Index, fresh.Corpus, opts)
 		r.Eval(len(a))
 		if nClaims > 0 {
-			r.Distinct(fmt.Sprintf("%s/%v/%d/%s/%s/%d/%d/%d", j.wid, j.order, pos, mode, j.kv, j.restartAt, len(j.dups), j.lanes))
+			r.Distinct(fmt.Sprintf("%s/%v/%d/%s/%s/%d/%d/%d", j.wid, j.order, pos, mode, j.kv, j.restartAt, len(j.dups), j.lanes)+twinKey(&j))
 		}
 		r.Note("modes", mode)
 		r.Note("kv_kinds", h.kind)
@@ -485,6 +516,16 @@ func runJob(r *ev.Run, j job, root string, sampleMu *sync.Mutex, sampled *int) {
 		if diffs := hw.DiffAnswers(a, b2); len(diffs) > 0 {
 			report("live-vs-reload", pos+1, diffs)
 			return
+		}
+		if twin != nil {
+			twin.Quiesce()
+			tw := hw.Probe(twin.Index, twin.Corpus, opts)
+			r.Eval(len(tw))
+			r.Count("comparisons_live_vs_restarted_twin", 1)
+			if diffs := hw.DiffAnswers(a, tw); len(diffs) > 0 {
+				report("live-vs-restarted-twin", pos+1, diffs)
+				return
+			}
 		}
 		if last && j.corpus && j.search {
 			sa := searchProbe(live, j.w, opts)
@@ -686,6 +727,7 @@ func run(r *ev.Run) {
 	p.chainWorlds()
 	p.directedWorlds()
 	p.multiDeleteWorlds()
+	p.lateClaimWorlds()
 	close(jobs)
 	wg.Wait()
 	r.Require("modes", "corpus", "nocorpus")
@@ -706,6 +748,14 @@ func run(r *ev.Run) {
 	r.Require("kv_fault_kinds", faultTrigMeta, faultTrigHave, faultTrigAny, faultTrigDel, faultLock, faultCommit)
 	r.Require("kv_fault_outcomes", "error-returned-then-retry-ok")
 	r.Require("kv_fault_victim_kinds", "claim", "delete", "permanode")
+	r.Require("history_modes", "restarted-twin")
+	r.Require("moments", "twin-forked-between-parked-delete-claim-and-its-target", "twin-forked-with-pending-dependencies")
+	r.Require("twin_parked_delete_families", "generic", "delete-chain", "multi-delete")
+	r.Require("twin_parked_delete_targets", "permanode", "claim", "delete")
+	r.Require("twin_modes", "corpus", "nocorpus")
+	r.Require("families", "late-claims")
+	r.Require("late_claim_orders", "exhaustive-set-then-valueless-del", "exhaustive-add-then-valueless-del", "older-claim-by-second-signer-keys-anywhere", "future-dated-claims", "exhaustive-future-dated-single-claim")
+	r.Require("world_features", "late-claim-valueless-del", "late-claim-del-with-value", "late-claim-re-add", "future-dated-single-claim-permanode", "future-dated-multi-claim-permanode")
 }
 
 // genericWorlds: the C05 generator, seeded orders, all history modes, all KV kinds.
@@ -758,6 +808,11 @@ func (p *planner) genericWorlds() {
 			if o >= 2 {
 				historyMode(&j, 1+(o-2+i)%4, orng)
 				j.corpus = (o+i)%2 == 0
+			}
+			// a restarted twin, forked while a delete claim is parked on its absent target (any
+			// order that has such a moment, every other world) or while anything waits (order 1)
+			if o >= 1 && (o+i)%2 == 1 && !twinMode(&j, o+i) && o == 1 {
+				twinModeAnyPending(&j)
 			}
 			p.jobs <- j
 		}
@@ -832,6 +887,10 @@ func (p *planner) chainWorlds() {
 			// a slice of the orders also with a mid-history re-open / re-deliveries
 			if pi%5 == 4 {
 				historyMode(&j, 1+(pi/5)%2, orng)
+			}
+			// two orders in three: a restarted twin forked while one of the links is parked
+			if pi%3 != 0 {
+				twinMode(&j, pi/3)
 			}
 			p.jobs <- j
 		}
@@ -926,6 +985,9 @@ func (p *planner) directedWorlds() {
 				}
 				if o >= 2 && !plainOnly {
 					historyMode(&j, 1+(o+i)%4, orng)
+				}
+				if o >= 1 && f.name != "content-time" {
+					twinMode(&j, o+i)
 				}
 				p.jobs <- j
 			}
